@@ -436,6 +436,207 @@ Section C03affine.
                   hx hy hz hx_nz hy_nz hz_nz nu nx ny nz). Qed.
 End C03affine.
 
+From V Require Import Proofs.GSLineSweep Proofs.GSLineAffineX.
+
+Section C03lineaffinex.
+  Context {F : Type} {O : FOps F}.
+  Hypothesis Fth : field_theory F0 F1 Fadd Fmul Fsub Fopp Fdiv Finv (@eq F).
+  Hypothesis two_nz : (1 + 1)%F <> 0%F.
+  Variables (eta_x eta_y eta_z zeta : Z -> Z -> Z -> F).
+  Variables (hx hy hz : Z -> F).
+  Hypothesis hx_nz : forall i, hx i <> 0%F.
+  Hypothesis hy_nz : forall i, hy i <> 0%F.
+  Hypothesis hz_nz : forall i, hz i <> 0%F.
+  Variables (nu nx ny nz : Z).
+
+  (* the line smoother along x is a linear (hence affine) map of (field, source):
+     every nu, nx >= 2; pivots stated once (run 1); no PEC hypothesis *)
+  Theorem line_x_smoother_is_linear_in_field_and_source
+      (al be : F) (emx emy emz e1x e1y e1z e2x e2y e2z smx smy smz s1x s1y s1z s2x s2y s2z : Z -> Z -> Z -> F) :
+    2 <= nx ->
+    (forall i j l, emx i j l = (al * e1x i j l + be * e2x i j l)%F) ->
+    (forall i j l, emy i j l = (al * e1y i j l + be * e2y i j l)%F) ->
+    (forall i j l, emz i j l = (al * e1z i j l + be * e2z i j l)%F) ->
+    (forall i j l, smx i j l = (al * s1x i j l + be * s2x i j l)%F) ->
+    (forall i j l, smy i j l = (al * s1y i j l + be * s2y i j l)%F) ->
+    (forall i j l, smz i j l = (al * s1z i j l + be * s2z i j l)%F) ->
+    (forall iy iz, 1 <= iy < ny -> 1 <= iz < nz ->
+       PivX e1x e1y e1z s1x s1y s1z eta_x eta_y eta_z zeta hx hy hz nu nx nx ny ny nz nz iy iz) ->
+    let rm := gauss_seidel_x nx ny nz emx emy emz smx smy smz eta_x eta_y eta_z zeta hx hy hz nu in
+    let r1 := gauss_seidel_x nx ny nz e1x e1y e1z s1x s1y s1z eta_x eta_y eta_z zeta hx hy hz nu in
+    let r2 := gauss_seidel_x nx ny nz e2x e2y e2z s2x s2y s2z eta_x eta_y eta_z zeta hx hy hz nu in
+    forall i j l,
+      fst (fst rm) i j l = (al * fst (fst r1) i j l + be * fst (fst r2) i j l)%F /\
+      snd (fst rm) i j l = (al * snd (fst r1) i j l + be * snd (fst r2) i j l)%F /\
+      snd rm i j l = (al * snd r1 i j l + be * snd r2 i j l)%F.
+  Proof.
+    intros Hn Hex Hey Hez Hsx Hsy Hsz Hpiv.
+    exact (gauss_seidel_x_linear Fth two_nz al be emx emy emz e1x e1y e1z e2x e2y e2z
+             smx smy smz s1x s1y s1z s2x s2y s2z eta_x eta_y eta_z zeta hx hy hz
+             hx_nz hy_nz hz_nz nu nx ny nz Hn Hex Hey Hez Hsx Hsy Hsz Hpiv).
+  Qed.
+
+  (* the matrix of a line system depends neither on the field nor on the source *)
+  Theorem line_x_matrix_independent_of_field_and_source
+      (fx fy fz gx gy gz sx sy sz tx ty tz : Z -> Z -> Z -> F) lhx lhy lhz iy iz :
+    2 <= nx ->
+    fst (gsx_sys fx fy fz sx sy sz eta_x eta_y eta_z zeta hx hy hz nu lhx nx lhy ny lhz nz iy iz)
+    = fst (gsx_sys gx gy gz tx ty tz eta_x eta_y eta_z zeta hx hy hz nu lhx nx lhy ny lhz nz iy iz).
+  Proof. exact (gsx_matrix_indep2 fx fy fz gx gy gz sx sy sz tx ty tz eta_x eta_y eta_z zeta
+                  hx hy hz nu lhx nx lhy ny lhz nz iy iz). Qed.
+
+  (* after nu >= 1 sweeps all 5 nx - 4 equations of the line relaxed LAST hold on the
+     returned field: line (iy,iz) = (last_line nu ny, last_line nu nz);
+     last_line nu n = 1 for odd nu (descending sweep), n - 1 for even nu.
+     PEC and pivots only for that line, on the input field *)
+  Variables (ex ey ez sx sy sz : Z -> Z -> Z -> F).
+  Theorem line_x_smoother_last_line_is_exact :
+    1 <= nu -> 2 <= nx -> 2 <= ny -> 2 <= nz ->
+    let iy := last_line nu ny in let iz := last_line nu nz in
+    PECx ey ez nx iy iz ->
+    PivX ex ey ez sx sy sz eta_x eta_y eta_z zeta hx hy hz nu nx nx ny ny nz nz iy iz ->
+    let r := gauss_seidel_x nx ny nz ex ey ez sx sy sz eta_x eta_y eta_z zeta hx hy hz nu in
+    forall i, 0 <= i < 5*nx-4 ->
+      fld_res sx sy sz eta_x eta_y eta_z zeta hx hy hz iy iz
+        (fst (fst r)) (snd (fst r)) (snd r) (i / 5) (i mod 5) = 0%F.
+  Proof. exact (gauss_seidel_x_last_line_exact Fth two_nz ex ey ez sx sy sz eta_x eta_y eta_z zeta
+                  hx hy hz hx_nz hy_nz hz_nz nu nx ny nz). Qed.
+End C03lineaffinex.
+
+From V Require Import Proofs.GSLineSweep Proofs.GSLineAffineY.
+
+Section C03lineaffiney.
+  Context {F : Type} {O : FOps F}.
+  Hypothesis Fth : field_theory F0 F1 Fadd Fmul Fsub Fopp Fdiv Finv (@eq F).
+  Hypothesis two_nz : (1 + 1)%F <> 0%F.
+  Variables (eta_x eta_y eta_z zeta : Z -> Z -> Z -> F).
+  Variables (hx hy hz : Z -> F).
+  Hypothesis hx_nz : forall i, hx i <> 0%F.
+  Hypothesis hy_nz : forall i, hy i <> 0%F.
+  Hypothesis hz_nz : forall i, hz i <> 0%F.
+  Variables (nu nx ny nz : Z).
+
+  (* the line smoother along y is a linear (hence affine) map of (field, source):
+     every nu, ny >= 2; pivots stated once (run 1); no PEC hypothesis *)
+  Theorem line_y_smoother_is_linear_in_field_and_source
+      (al be : F) (emx emy emz e1x e1y e1z e2x e2y e2z smx smy smz s1x s1y s1z s2x s2y s2z : Z -> Z -> Z -> F) :
+    2 <= ny ->
+    (forall i j l, emx i j l = (al * e1x i j l + be * e2x i j l)%F) ->
+    (forall i j l, emy i j l = (al * e1y i j l + be * e2y i j l)%F) ->
+    (forall i j l, emz i j l = (al * e1z i j l + be * e2z i j l)%F) ->
+    (forall i j l, smx i j l = (al * s1x i j l + be * s2x i j l)%F) ->
+    (forall i j l, smy i j l = (al * s1y i j l + be * s2y i j l)%F) ->
+    (forall i j l, smz i j l = (al * s1z i j l + be * s2z i j l)%F) ->
+    (forall ix iz, 1 <= ix < nx -> 1 <= iz < nz ->
+       PivY e1x e1y e1z s1x s1y s1z eta_x eta_y eta_z zeta hx hy hz nu nx nx ny ny nz nz ix iz) ->
+    let rm := gauss_seidel_y nx ny nz emx emy emz smx smy smz eta_x eta_y eta_z zeta hx hy hz nu in
+    let r1 := gauss_seidel_y nx ny nz e1x e1y e1z s1x s1y s1z eta_x eta_y eta_z zeta hx hy hz nu in
+    let r2 := gauss_seidel_y nx ny nz e2x e2y e2z s2x s2y s2z eta_x eta_y eta_z zeta hx hy hz nu in
+    forall i j l,
+      fst (fst rm) i j l = (al * fst (fst r1) i j l + be * fst (fst r2) i j l)%F /\
+      snd (fst rm) i j l = (al * snd (fst r1) i j l + be * snd (fst r2) i j l)%F /\
+      snd rm i j l = (al * snd r1 i j l + be * snd r2 i j l)%F.
+  Proof.
+    intros Hn Hex Hey Hez Hsx Hsy Hsz Hpiv.
+    exact (gauss_seidel_y_linear Fth two_nz al be emx emy emz e1x e1y e1z e2x e2y e2z
+             smx smy smz s1x s1y s1z s2x s2y s2z eta_x eta_y eta_z zeta hx hy hz
+             hx_nz hy_nz hz_nz nu nx ny nz Hn Hex Hey Hez Hsx Hsy Hsz Hpiv).
+  Qed.
+
+  (* the matrix of a line system depends neither on the field nor on the source *)
+  Theorem line_y_matrix_independent_of_field_and_source
+      (fx fy fz gx gy gz sx sy sz tx ty tz : Z -> Z -> Z -> F) lhx lhy lhz ix iz :
+    2 <= ny ->
+    fst (gsy_sys fx fy fz sx sy sz eta_x eta_y eta_z zeta hx hy hz nu lhx nx lhy ny lhz nz ix iz)
+    = fst (gsy_sys gx gy gz tx ty tz eta_x eta_y eta_z zeta hx hy hz nu lhx nx lhy ny lhz nz ix iz).
+  Proof. exact (gsy_matrix_indep2 fx fy fz gx gy gz sx sy sz tx ty tz eta_x eta_y eta_z zeta
+                  hx hy hz nu lhx nx lhy ny lhz nz ix iz). Qed.
+
+  (* after nu >= 1 sweeps all 5 ny - 4 equations of the line relaxed LAST hold on the
+     returned field: line (ix,iz) = (last_line nu nx, last_line nu nz);
+     last_line nu n = 1 for odd nu (descending sweep), n - 1 for even nu.
+     PEC and pivots only for that line, on the input field *)
+  Variables (ex ey ez sx sy sz : Z -> Z -> Z -> F).
+  Theorem line_y_smoother_last_line_is_exact :
+    1 <= nu -> 2 <= nx -> 2 <= ny -> 2 <= nz ->
+    let ix := last_line nu nx in let iz := last_line nu nz in
+    PECy ex ez ny ix iz ->
+    PivY ex ey ez sx sy sz eta_x eta_y eta_z zeta hx hy hz nu nx nx ny ny nz nz ix iz ->
+    let r := gauss_seidel_y nx ny nz ex ey ez sx sy sz eta_x eta_y eta_z zeta hx hy hz nu in
+    forall i, 0 <= i < 5*ny-4 ->
+      fld_resY sx sy sz eta_x eta_y eta_z zeta hx hy hz ix iz
+        (fst (fst r)) (snd (fst r)) (snd r) (i / 5) (i mod 5) = 0%F.
+  Proof. exact (gauss_seidel_y_last_line_exact Fth two_nz ex ey ez sx sy sz eta_x eta_y eta_z zeta
+                  hx hy hz hx_nz hy_nz hz_nz nu nx ny nz). Qed.
+End C03lineaffiney.
+
+From V Require Import Proofs.GSLineSweep Proofs.GSLineAffineZ.
+
+Section C03lineaffinez.
+  Context {F : Type} {O : FOps F}.
+  Hypothesis Fth : field_theory F0 F1 Fadd Fmul Fsub Fopp Fdiv Finv (@eq F).
+  Hypothesis two_nz : (1 + 1)%F <> 0%F.
+  Variables (eta_x eta_y eta_z zeta : Z -> Z -> Z -> F).
+  Variables (hx hy hz : Z -> F).
+  Hypothesis hx_nz : forall i, hx i <> 0%F.
+  Hypothesis hy_nz : forall i, hy i <> 0%F.
+  Hypothesis hz_nz : forall i, hz i <> 0%F.
+  Variables (nu nx ny nz : Z).
+
+  (* the line smoother along z is a linear (hence affine) map of (field, source):
+     every nu, nz >= 2; pivots stated once (run 1); no PEC hypothesis *)
+  Theorem line_z_smoother_is_linear_in_field_and_source
+      (al be : F) (emx emy emz e1x e1y e1z e2x e2y e2z smx smy smz s1x s1y s1z s2x s2y s2z : Z -> Z -> Z -> F) :
+    2 <= nz ->
+    (forall i j l, emx i j l = (al * e1x i j l + be * e2x i j l)%F) ->
+    (forall i j l, emy i j l = (al * e1y i j l + be * e2y i j l)%F) ->
+    (forall i j l, emz i j l = (al * e1z i j l + be * e2z i j l)%F) ->
+    (forall i j l, smx i j l = (al * s1x i j l + be * s2x i j l)%F) ->
+    (forall i j l, smy i j l = (al * s1y i j l + be * s2y i j l)%F) ->
+    (forall i j l, smz i j l = (al * s1z i j l + be * s2z i j l)%F) ->
+    (forall ix iy, 1 <= ix < nx -> 1 <= iy < ny ->
+       PivZ e1x e1y e1z s1x s1y s1z eta_x eta_y eta_z zeta hx hy hz nu nx nx ny ny nz nz ix iy) ->
+    let rm := gauss_seidel_z nx ny nz emx emy emz smx smy smz eta_x eta_y eta_z zeta hx hy hz nu in
+    let r1 := gauss_seidel_z nx ny nz e1x e1y e1z s1x s1y s1z eta_x eta_y eta_z zeta hx hy hz nu in
+    let r2 := gauss_seidel_z nx ny nz e2x e2y e2z s2x s2y s2z eta_x eta_y eta_z zeta hx hy hz nu in
+    forall i j l,
+      fst (fst rm) i j l = (al * fst (fst r1) i j l + be * fst (fst r2) i j l)%F /\
+      snd (fst rm) i j l = (al * snd (fst r1) i j l + be * snd (fst r2) i j l)%F /\
+      snd rm i j l = (al * snd r1 i j l + be * snd r2 i j l)%F.
+  Proof.
+    intros Hn Hex Hey Hez Hsx Hsy Hsz Hpiv.
+    exact (gauss_seidel_z_linear Fth two_nz al be emx emy emz e1x e1y e1z e2x e2y e2z
+             smx smy smz s1x s1y s1z s2x s2y s2z eta_x eta_y eta_z zeta hx hy hz
+             hx_nz hy_nz hz_nz nu nx ny nz Hn Hex Hey Hez Hsx Hsy Hsz Hpiv).
+  Qed.
+
+  (* the matrix of a line system depends neither on the field nor on the source *)
+  Theorem line_z_matrix_independent_of_field_and_source
+      (fx fy fz gx gy gz sx sy sz tx ty tz : Z -> Z -> Z -> F) lhx lhy lhz ix iy :
+    2 <= nz ->
+    fst (gsz_sys fx fy fz sx sy sz eta_x eta_y eta_z zeta hx hy hz nu lhx nx lhy ny lhz nz ix iy)
+    = fst (gsz_sys gx gy gz tx ty tz eta_x eta_y eta_z zeta hx hy hz nu lhx nx lhy ny lhz nz ix iy).
+  Proof. exact (gsz_matrix_indep2 fx fy fz gx gy gz sx sy sz tx ty tz eta_x eta_y eta_z zeta
+                  hx hy hz nu lhx nx lhy ny lhz nz ix iy). Qed.
+
+  (* after nu >= 1 sweeps all 5 nz - 4 equations of the line relaxed LAST hold on the
+     returned field: line (ix,iy) = (last_line nu nx, last_line nu ny);
+     last_line nu n = 1 for odd nu (descending sweep), n - 1 for even nu.
+     PEC and pivots only for that line, on the input field *)
+  Variables (ex ey ez sx sy sz : Z -> Z -> Z -> F).
+  Theorem line_z_smoother_last_line_is_exact :
+    1 <= nu -> 2 <= nx -> 2 <= ny -> 2 <= nz ->
+    let ix := last_line nu nx in let iy := last_line nu ny in
+    PECz ex ey nz ix iy ->
+    PivZ ex ey ez sx sy sz eta_x eta_y eta_z zeta hx hy hz nu nx nx ny ny nz nz ix iy ->
+    let r := gauss_seidel_z nx ny nz ex ey ez sx sy sz eta_x eta_y eta_z zeta hx hy hz nu in
+    forall i, 0 <= i < 5*nz-4 ->
+      fld_resZ sx sy sz eta_x eta_y eta_z zeta hx hy hz ix iy
+        (fst (fst r)) (snd (fst r)) (snd r) (i / 5) (i mod 5) = 0%F.
+  Proof. exact (gauss_seidel_z_last_line_exact Fth two_nz ex ey ez sx sy sz eta_x eta_y eta_z zeta
+                  hx hy hz hx_nz hy_nz hz_nz nu nx ny nz). Qed.
+End C03lineaffinez.
+
 Print Assumptions solve_correct_banded.
 Print Assumptions solve_unique_banded.
 Print Assumptions solve_is_linear_in_rhs.
@@ -461,3 +662,12 @@ Print Assumptions line_z_smoother_never_writes_boundary.
 Print Assumptions point_smoother_is_linear_in_field_and_source.
 Print Assumptions block_matrix_independent_of_field_and_source.
 Print Assumptions point_smoother_last_block_is_exact.
+Print Assumptions line_x_smoother_is_linear_in_field_and_source.
+Print Assumptions line_x_matrix_independent_of_field_and_source.
+Print Assumptions line_x_smoother_last_line_is_exact.
+Print Assumptions line_y_smoother_is_linear_in_field_and_source.
+Print Assumptions line_y_matrix_independent_of_field_and_source.
+Print Assumptions line_y_smoother_last_line_is_exact.
+Print Assumptions line_z_smoother_is_linear_in_field_and_source.
+Print Assumptions line_z_matrix_independent_of_field_and_source.
+Print Assumptions line_z_smoother_last_line_is_exact.
